@@ -444,6 +444,22 @@ pub fn run(out: &mut Out, tier: &str, seed: u64, prop: &str) {
                 "A[x,y]>=1", "a[x,y] >=1", "a[y,x]>=1", "b @ https://x.org/home/ferris/p", "a ; os_name == 'a'", "a;os_name=='a'", "a ; os_name == 'b'", "a ; os.name == 'a'", "a ; python_implementation == 'CPython'", "a ; platform_python_implementation == 'CPython'", "a @ https://x.org/home/ferris/p ; os_name == 'a'"];
             let mut parsed: Vec<pep508_rs::Requirement<pep508_rs::VerbatimUrl>> = reqs.iter().map(|r| pep508_rs::Requirement::from_str(r).unwrap()).collect();
             let mut reqs: Vec<String> = reqs.iter().map(|r| r.to_string()).collect();
+            // the same TEXT read under another value of the variable it references: the same verbatim text, another URL — a different
+            // value for Eq, Ord and Hash alike (and two URLs given one verbatim text by hand)
+            {
+                std::env::set_var("VP_HOME_DIR", "elsewhere");
+                for t in ["a @ https://x.org/${VP_HOME_DIR}/p", "a @ https://x.org/${VP_HOME_DIR}/p ; os_name == 'a'"] {
+                    parsed.push(pep508_rs::Requirement::from_str(t).unwrap());
+                    reqs.push(format!("{t}  [VP_HOME_DIR=elsewhere]"));
+                }
+                std::env::set_var("VP_HOME_DIR", "home/ferris");
+                for (u, g) in [("https://x.org/one", "${INDEX}/pkg"), ("https://x.org/two", "${INDEX}/pkg"), ("https://x.org/one", "other text")] {
+                    let mut r = pep508_rs::Requirement::<pep508_rs::VerbatimUrl>::from_str("a @ https://x.org/placeholder").unwrap();
+                    r.version_or_url = Some(pep508_rs::VersionOrUrl::Url(pep508_rs::VerbatimUrl::parse_url(u).unwrap().with_given(g)));
+                    parsed.push(r);
+                    reqs.push(format!("a @ {u}  [given {g}]"));
+                }
+            }
             // the same requirement recorded with different origins (`with_origin`): origins that differ in kind, in path, or ONLY in
             // the project name are different values for Eq, Ord and Hash alike
             {
